@@ -87,4 +87,6 @@ def panel (f : Feat) : Panel :=
     prog := prog f,
     ctrl := .uc (Uc.por WIDTH HEIGHT 2 7 false) }
 
+attribute [driver_simp] W expandBits sendResolution setLut init updateAchromatic updateChromatic updateFrame displayFrame prog
+
 end EpdVerif.Drivers.Epd1in54b
